@@ -187,10 +187,9 @@ def encodeRows (ctx : Ctx) (s : Stmt) : List Row → Bool → Result
   | r :: rest, rmSet =>
     if r.instr != s.mnemonic then encodeRows ctx s rest rmSet
     else if !modelled r.type then .unmodelled
-    else if rmSet then
-      -- `operands[operand_count - 1].type != OPERAND_RM || (type is not an FP rounding row)` → continue
-      if s.operands.length = 0 then .fault else encodeRows ctx s rest rmSet
     else
+      -- `rm_given` (a rounding-mode operand was parsed) is false for every modelled statement: `Stmt` has no
+      -- OPERAND_RM, so the `if (rm_given && ...)` block is skipped; `rmSet` only records `modifiers.rm == 7`
       let rmSet' := !(r.type == .OP_ALIAS_JAL || r.type == .OP_ALIAS_JALR)
       if s.fence != 0 && r.type != .OP_FENCE then encodeRows ctx s rest rmSet'
       else match rowAction ctx r s with
